@@ -348,6 +348,24 @@ fn run(ctx: &mut Ctx) {
     if ctx.mine(job) {
         xor_neighbours(ctx);
     }
+    // (3'') a tracked aircraft's address inside the PAYLOAD of another aircraft's frame (ACAS threat identity,
+    // air-air replies, ...): the frame still belongs to its sender alone
+    embedded_addresses(ctx, &mut job);
+    // (3d) isolation does not depend on how many aircraft are tracked: n rows, then one frame of a new
+    // aircraft - all n rows are still there, bit-identical (n around powers of two and table limits)
+    for n in [1000usize, 4095, 4096, 4097, 5000, 32768, 65535, 65536, 65537] {
+        for opts in [&[][..], &["-U"][..]] {
+            job += 1;
+            if ctx.mine(job) {
+                ctx.eval();
+                ctx.count("crowded-table-isolation");
+                let cfg = Cfg::new(opts);
+                if let Some(what) = crowded_case(&cfg, n) {
+                    ctx.violation(&format!("C03/crowded/{}", cfg.label()), &format!("{n} aircraft"), || format!("{n} tracked aircraft, then one frame of a new one: {what}"), || json!({"kind": "crowded", "n": n, "cfg": cfg.opts}));
+                }
+            }
+        }
+    }
     // (4) row isolation over model ROW with three aircraft
     run_row(ctx, &[], 3, 3);
     if thorough {
@@ -359,6 +377,129 @@ fn run(ctx: &mut Ctx) {
     ctx.sample(|| json!({"ROW history": ["A:DF4 31000ft", "B:TC19 v1", "C:DF20 BDS5,0"], "expected": "each frame touches only the row keyed by its own address"}));
     ctx.bound("addresses", "all 16777216 per format");
     ctx.out.exhaustive = true;
+}
+
+/// 56-bit payloads that carry the 24-bit address `a` at bit offset `o` (0-based), for every leading byte of
+/// interest, with and without the bit after the leading byte (ACAS ARA), every value of the two bits in
+/// front of the address (ACAS TTI) and zero / one fill
+fn payloads_with_address(a: u32) -> Vec<u64> {
+    let mut v = vec![];
+    for b0 in [0x00u64, 0x10, 0x17, 0x20, 0x30, 0x40, 0x50, 0x60, 0xE1, 0xFF] {
+        for ara in 0..2u64 {
+            for o in 8..=32u32 {
+                for pre2 in 0..4u64 {
+                    for fill in [0u64, 1] {
+                        let mut m: u64 = if fill == 1 { (1u64 << 48) - 1 } else { 0 };
+                        m |= b0 << 48;
+                        // bit 9 (first after the leading byte)
+                        m = (m & !(1u64 << 47)) | (ara << 47);
+                        // the address and the two bits before it
+                        let sh = 56 - o - 24;
+                        m = (m & !(0xFF_FFFFu64 << sh)) | ((a as u64) << sh);
+                        if o >= 10 {
+                            m = (m & !(3u64 << (sh + 24))) | (pre2 << (sh + 24));
+                        }
+                        v.push(m & ((1u64 << 56) - 1));
+                    }
+                }
+            }
+        }
+    }
+    v.sort();
+    v.dedup();
+    v
+}
+
+fn embedded_case(cfg: &Cfg, fmt: usize, payload: u64) -> (bool, String, String) {
+    use crate::frames;
+    use crate::run::{join_lines, run_file};
+    use crate::snap::{new_table, snapshot};
+    let (a, b, c) = (0x4CA2D6u32, 0x4CA2D7u32, 0x3C6586u32);
+    let seed: Vec<Vec<u8>> = vec![
+        frames::df11(5, a, 0).hex().into_bytes(),
+        frames::df20(a, frames::ac13_for_alt(7000), frames::mb_bds17(0xFFFFFF)).hex().into_bytes(),
+        frames::df17(5, a, frames::me_ident(4, 3, frames::callsign_codes("ALPHA"))).hex().into_bytes(),
+        frames::df11(5, b, 0).hex().into_bytes(),
+        frames::df4(b, frames::ac13_for_alt(9000)).hex().into_bytes(),
+        frames::df11(5, c, 0).hex().into_bytes(),
+    ];
+    let t0 = new_table();
+    let _ = run_file(cfg, &join_lines(&seed), &t0);
+    let before = snapshot(&t0);
+    let alt = frames::ac13_for_alt(31000);
+    let sq = frames::id13_for_squawk(4521);
+    let f = match fmt {
+        0 => frames::df20(c, alt, payload),
+        1 => frames::df21(c, sq, payload),
+        2 => frames::df16(c, alt, payload),
+        3 => frames::df17(5, c, payload),
+        _ => frames::es(18, 2, c, payload),
+    };
+    let o = run_file(cfg, &join_lines(&[f.hex().into_bytes()]), &t0);
+    let after = snapshot(&t0);
+    let others_same = [a, b].iter().all(|k| before.iter().find(|r| r.key == *k) == after.iter().find(|r| r.key == *k));
+    let ok = o.is_ok() && others_same && after.len() == 3;
+    let d = [a, b]
+        .iter()
+        .filter_map(|k| {
+            let (x, y) = (before.iter().find(|r| r.key == *k)?, after.iter().find(|r| r.key == *k)?);
+            if x == y { None } else { Some(format!("{k:06X}: {}", crate::snap::diff_fields(x, y).join("; "))) }
+        })
+        .collect::<Vec<_>>()
+        .join(" | ");
+    (ok, f.hex(), d)
+}
+
+fn crowded_case(cfg: &Cfg, n: usize) -> Option<String> {
+    use crate::frames;
+    use crate::run::{join_lines, run_file};
+    use crate::snap::{new_table, snapshot};
+    let lines: Vec<Vec<u8>> = (0..n as u32).map(|i| if i % 2 == 0 { frames::df11(5, 0x100001 + i, 0) } else { frames::df4(0x100001 + i, frames::ac13_for_alt(1000 + (i as i32 % 400) * 100)) }.hex().into_bytes()).collect();
+    let t = new_table();
+    let o = run_file(cfg, &join_lines(&lines), &t);
+    let before = snapshot(&t);
+    if !o.is_ok() || before.len() != n {
+        return Some(format!("after the {n} frames the table has {} rows (reader {})", before.len(), o.label()));
+    }
+    let newcomer = frames::df17(5, 0x3C6586, frames::me_ident(4, 3, frames::callsign_codes("NEWONE")));
+    let o = run_file(cfg, &join_lines(&[newcomer.hex().into_bytes()]), &t);
+    let after = snapshot(&t);
+    if !o.is_ok() || after.len() != n + 1 {
+        return Some(format!("after the newcomer's frame the table has {} rows, expected {} (reader {})", after.len(), n + 1, o.label()));
+    }
+    let idx: std::collections::HashMap<u32, &crate::snap::Snap> = after.iter().map(|r| (r.key, r)).collect();
+    let changed = before.iter().filter(|r| idx.get(&r.key).copied() != Some(*r)).count();
+    if changed > 0 { Some(format!("{changed} of the {n} rows changed or vanished")) } else { None }
+}
+
+fn embedded_addresses(ctx: &mut Ctx, job: &mut u64) {
+    let names = ["DF20", "DF21", "DF16", "DF17", "DF18"];
+    for opts in [&[][..], &["-U"][..], &["-R"][..], &["-U", "-R"][..]] {
+        let cfg = Cfg::new(opts);
+        for target in [0x4CA2D6u32, 0x4CA2D7] {
+            for (pi, payload) in payloads_with_address(target).into_iter().enumerate() {
+                if pi % 64 == 0 {
+                    *job += 1;
+                }
+                if !ctx.mine(*job) {
+                    continue;
+                }
+                for fmt in 0..names.len() {
+                    let (ok, hex, d) = embedded_case(&cfg, fmt, payload);
+                    ctx.eval();
+                    ctx.count("address-in-payload");
+                    if !ok {
+                        ctx.violation(
+                            &format!("C03/address-in-payload/{}", cfg.label()),
+                            &format!("{} payload {payload:014X}", names[fmt]),
+                            || format!("{} frame {hex} of 3C6586 whose payload contains the address {target:06X} of a tracked aircraft changed another row: {d}", names[fmt]),
+                            || json!({"kind": "embedded", "fmt": fmt, "payload": payload, "cfg": cfg.opts}),
+                        );
+                    }
+                }
+            }
+        }
+    }
 }
 
 fn xor_neighbours(ctx: &mut Ctx) {
@@ -479,6 +620,29 @@ fn replay(ctx: &mut Ctx, case: &Value) {
             crate::run::say(&format!("{hex} (reference address {b:06X}) while {a:06X} is tracked, cfg [{}]: rows afterwards {:X?}; isolated: {ok}", cfg.label(), after.iter().map(|r| r.key).collect::<Vec<_>>()));
             if !ok {
                 ctx.violation("C03/xor-neighbour", &hex, || "frame of a neighbouring address touched another row or got no row".into(), || case.clone());
+            }
+        }
+        Some("crowded") => {
+            let opts: Vec<String> = case.get("cfg").and_then(|c| c.as_array()).map(|a| a.iter().filter_map(|x| x.as_str().map(String::from)).collect()).unwrap_or_default();
+            let o: Vec<&str> = opts.iter().map(|s| s.as_str()).collect();
+            let cfg = Cfg::new(&o);
+            let n = case.get("n").and_then(|x| x.as_u64()).unwrap_or(1000) as usize;
+            let r = crowded_case(&cfg, n);
+            crate::run::say(&format!("{n} tracked aircraft, then one frame of a new one, cfg [{}]: {}", cfg.label(), r.clone().unwrap_or_else(|| "all rows kept bit-identical".into())));
+            if let Some(what) = r {
+                ctx.violation("C03/crowded", &format!("{n}"), || what, || case.clone());
+            }
+        }
+        Some("embedded") => {
+            let opts: Vec<String> = case.get("cfg").and_then(|c| c.as_array()).map(|a| a.iter().filter_map(|x| x.as_str().map(String::from)).collect()).unwrap_or_default();
+            let o: Vec<&str> = opts.iter().map(|s| s.as_str()).collect();
+            let cfg = Cfg::new(&o);
+            let fmt = case.get("fmt").and_then(|x| x.as_u64()).unwrap_or(0) as usize;
+            let payload = case.get("payload").and_then(|x| x.as_u64()).unwrap_or(0);
+            let (ok, hex, d) = embedded_case(&cfg, fmt, payload);
+            crate::run::say(&format!("frame {hex} of 3C6586 while 4CA2D6 and 4CA2D7 are tracked, cfg [{}]: other rows untouched: {ok} {d}", cfg.label()));
+            if !ok {
+                ctx.violation("C03/address-in-payload", &hex, || "a frame changed the row of an aircraft whose address it carries in its payload".into(), || case.clone());
             }
         }
         Some("icao") | Some("reader") => {
